@@ -726,6 +726,13 @@ const AMAX: i64 = 8 * FINE - 1;
 
 const BAD_CTX: [&str; 8] = ["fn", "short", "u32", "u128", "i64", "sym", "create", "ctor"];
 
+/// i128-edge regime: the embedding n * FINE + m <-> n * 2^124 + m preserves order and sums only while the small parts
+/// stay far below FINE / 2 - values that are not already "whole units and a few" are snapped to whole units.
+fn snap(x: i64) -> i64 {
+    let m = (x + FINE / 2).rem_euclid(FINE) - FINE / 2;
+    if m.abs() <= 4 { x } else { x - m }
+}
+
 fn drive_spending(sys: &mut Sys, r: &mut StdRng, len: usize, t: &mut Trace) {
     let all = sys.all_names();
     let big = sys.ashift > 0;
@@ -746,7 +753,7 @@ fn drive_spending(sys: &mut Sys, r: &mut StdRng, len: usize, t: &mut Trace) {
             "install" => {
                 let au = g.auth(0.85);
                 let mut o = g.op(kind, 0, &au);
-                let l = if big { *pick(g.r, &[0i64, 1, 3 * FINE + 2, 5 * FINE, 7 * FINE, AMAX - 10, AMAX, AMAX, AMAX]) } else { *pick(g.r, &[0i64, 1, 2, 5, 10, 10, 100, 1000]) };
+                let l = if big { *pick(g.r, &[0i64, 1, 3 * FINE + 2, 5 * FINE, 7 * FINE, AMAX - 3, AMAX, AMAX, AMAX]) } else { *pick(g.r, &[0i64, 1, 2, 5, 10, 10, 100, 1000]) };
                 o["amt"] = json!(l);
                 o["per"] = json!(*pick(g.r, &[0i64, 1, 1, 2, 2, 3, 5, 8, 20]));
                 o
@@ -762,7 +769,7 @@ fn drive_spending(sys: &mut Sys, r: &mut StdRng, len: usize, t: &mut Trace) {
                     4 => limit + 1,
                     _ => g.r.gen_range(1..=(2 * limit).max(2)),
                 };
-                o["amt"] = json!(x.clamp(0, if big { AMAX } else { 1 << 20 }));
+                o["amt"] = json!(if big { snap(x.clamp(0, AMAX)).min(AMAX) } else { x.clamp(0, 1 << 20) });
                 o
             }
             "uninstall" => {
@@ -789,10 +796,10 @@ fn drive_spending(sys: &mut Sys, r: &mut StdRng, len: usize, t: &mut Trace) {
                     3 => limit,
                     4 => limit + 1,
                     5 | 6 => 1,
-                    7 if big => *pick(g.r, &[10i64, 100, FINE, AMAX - 10, AMAX - 1, AMAX]),
+                    7 if big => *pick(g.r, &[1i64, 2, FINE, 2 * FINE + 1, AMAX - 3, AMAX - 1, AMAX]),
                     _ => g.r.gen_range(0..=(limit / 3).max(1)),
                 };
-                o["amt"] = json!(x.clamp(0, if big { AMAX } else { 1 << 20 }));
+                o["amt"] = json!(if big { snap(x.clamp(0, AMAX)).min(AMAX) } else { x.clamp(0, 1 << 20) });
                 o["ctx"] = json!(if g.r.gen_bool(0.1) { *pick(g.r, &BAD_CTX) } else { "transfer" });
                 let k = if g.r.gen_bool(0.06) { 0 } else { g.r.gen_range(1..=g.all.len()) };
                 let all = g.all.clone();
@@ -806,7 +813,7 @@ fn drive_spending(sys: &mut Sys, r: &mut StdRng, len: usize, t: &mut Trace) {
         per = ev["obs"]["per"].as_i64().unwrap_or(0);
         cached = ev["obs"]["cached"].as_i64().unwrap_or(0);
         t.step(ev);
-        if sys.over_limits {
+        if sys.over_limits || (big && (fine_small_part(cached) > 150 || fine_small_part(limit) > 150)) {
             return;
         }
     }
